@@ -81,6 +81,16 @@ CHECKS = {
             "For every oracle-accepted configuration in scope and every subset g with |g|>=2 the real sampler is driven to g and given every u of an alphabet built from the exact cumulative sums of its own table (interval ends, f64 neighbours of every boundary, 0, 2^-1074, 1-2^-52, 1-2^-53); the selected edge is read from the log and compared with the exact inversion; any panic is a violation.",
             "Trusted: exact rational cumulative sums of the implementation's table values; removal order read through the `log` feature.",
             "DESIGN.md §5/C06"),
+    "C14": ("c14", "model_checking",
+            "stateless deviation-bounded exploration over all coordinate roles; non-interference checked as a 2-safety property over all pairs of explored points; per-execution dependence sets from a tracking scalar",
+            "On the explored answer sequences of every configuration: slices of exactly get_dimension() never panic and appended poison coordinates never change a bit; for every pair of explored points agreeing on a coordinate group the outputs owned by that group are bit-identical (hash tables over the whole explored set); every coordinate has an explored alternative that changes the result; and a tracking scalar type yields per-execution dependence sets (u on xi only, each Gaussian component on exactly its pair, comparisons only on selection answers or Feynman-group data).",
+            "Trusted: the tracking scalar (harness code). lambda crosses the f64 boundary, so its independence is shown by the 2-safety table, not by taint.",
+            "DESIGN.md §5/C14"),
+    "C19": ("c14", "exploration",
+            "narrowing census with an instrumented scalar on every explored execution (all control-flow exits) + double-double scalar through the matrix kernel vs exact rationals",
+            "(a) On every explored execution (all sectors in scope; Ok, Unstable and GammaError exits; metadata on/off) every to_f64 argument is a constant or exactly the designated coordinate, narrowed once, and the multiset of from_f64 arguments (Gamma result excepted) is identical across all points of a sector, so no user data passes through f64. (b) A double-double type run through decompose_for_tropical on structured SPD families and graph L matrices reproduces the exact inverse, determinant and factor identities to 2^-86*cond, 10^10 times tighter than any f64 detour allows, without a single to_f64 call.",
+            "Trusted: instrumented scalar types (harness code), exact rational algebra. 'Any type' is represented by three types.",
+            "DESIGN.md §5/C19"),
 }
 
 NOT_BUILT_REASON = "check not built yet in this session (see DESIGN.md §10 for the plan); not claimed until it passes and has been mutation-tested"
